@@ -311,6 +311,10 @@ def tt_irenumber(
     newsubs = t.subs.astype(int)
     for i, r in enumerate(number_range):
         if isinstance(r, slice):
+            if r.step not in (None, 1):
+                # A strided slice selects from the (already resized) destination
+                newsubs[:, i] = np.arange(shape[i])[r][newsubs[:, i]]
+                continue
             start = r.start or 0
             stop = r.stop or shape[i]
             newsubs[:, i] = np.arange(start, stop + 1)[newsubs[:, i]]
